@@ -54,6 +54,7 @@ var (
 	foreign     bool   // the code under test started a goroutine of its own during this run
 	foreignRuns uint64 // scheduled runs in which that happened
 
+	everHit  []bool   // optional: sites executed at least once by this process (reach measure)
 	siteHits []uint32 // optional per-site hit counters (coverage), len 0 = off
 
 	knobs = map[string]int{}
@@ -98,6 +99,22 @@ func ResetSteps() { steps = 0 }
 //go:norace
 func SetBudget(b uint64) { budget = b; steps = 0 }
 
+// EnableCoverage starts recording which of n sites this process ever executes.
+func EnableCoverage(n int) { everHit = make([]bool, n+1) }
+
+// Covered returns the ids of the sites executed so far.
+//
+//go:norace
+func Covered() []uint32 {
+	var out []uint32
+	for id, h := range everHit {
+		if h {
+			out = append(out, uint32(id))
+		}
+	}
+	return out
+}
+
 // EnableSiteHits allocates per-site hit counters for n sites.
 func EnableSiteHits(n int) { siteHits = make([]uint32, n+1) }
 
@@ -117,6 +134,9 @@ func Yield(site uint32) {
 	}
 	if int(site) < len(siteHits) {
 		siteHits[site]++
+	}
+	if int(site) < len(everHit) {
+		everHit[site] = true
 	}
 	if !active || foreign {
 		return
